@@ -2056,3 +2056,62 @@ def check_base64_chunking(ctx, f, rule="R-GRD"):
                    "%s encodes piecewise only in pieces of a multiple of 3 octets (else padding appears inside the text)"
                    % short(root_fn_name(f, name)), where=c.where(), detail={"input": alpha(txt, b)[:200], "piece_size": size})
     ctx.note("base64 encode calls inside loops: %d" % n)
+
+
+# ---------------------------------------------------------------------------------------------
+# byte order of integer conversions, decided on the bytes
+
+def byte_order_eval(t, is_input, host, width=4):
+    """The value of a composition of the std integer byte-order conversions, as a permutation of the input's bytes.
+    An integer is ("int", m) with m its bytes most significant first, an array ("arr", a) in index order; the input is
+    ("int", (0, 1, .., width-1)).  `host` is "le" or "be".  None when the term is anything else."""
+    t = strip_deep(t)
+    while t[0] == "mvar":
+        t = strip_deep(t[3])
+    if is_input(t):
+        return ("int", tuple(range(width)))
+    if t[0] == "cast":
+        return byte_order_eval(t[1], is_input, host, width)
+    if t[0] != "call" or len(t[2]) != 1:
+        return None
+    name = (t[3] or {}).get("name")
+    if not re.match(r"^(core|std)::num::", (t[3] or {}).get("fn") or "") and not re.match(r"^(core|std)::num::", t[1] or ""):
+        return None
+    v = byte_order_eval(t[2][0], is_input, host, width)
+    if v is None:
+        return None
+
+    def mem(m):                 # memory layout of an integer on this host
+        return tuple(m) if host == "be" else tuple(reversed(m))
+    kind, x = v
+    if kind == "int":
+        if name in ("to_be", "from_be"):
+            return ("int", x if host == "be" else tuple(reversed(x)))
+        if name in ("to_le", "from_le"):
+            return ("int", x if host == "le" else tuple(reversed(x)))
+        if name == "swap_bytes":
+            return ("int", tuple(reversed(x)))
+        if name == "to_be_bytes":
+            return ("arr", tuple(x))
+        if name == "to_le_bytes":
+            return ("arr", tuple(reversed(x)))
+        if name == "to_ne_bytes":
+            return ("arr", mem(x))
+    else:
+        if name == "from_be_bytes":
+            return ("int", tuple(x))
+        if name == "from_le_bytes":
+            return ("int", tuple(reversed(x)))
+        if name == "from_ne_bytes":
+            return ("int", tuple(x) if host == "be" else tuple(reversed(x)))
+    return None
+
+
+def is_byte_order_conversion(t, is_input, want, width=4):
+    """Does term `t` compute `want` ("to_be" / "from_be" — the same permutation) of the input on both kinds of host?"""
+    for host in ("le", "be"):
+        v = byte_order_eval(t, is_input, host, width)
+        ref = ("int", tuple(range(width)) if host == "be" else tuple(reversed(range(width))))
+        if v != ref:
+            return False
+    return True
